@@ -10,7 +10,7 @@
 EXTENDS TraceBase, MsgTypes
 
 ASSUME TableConsistent
-ASSUME Len(Trace) = 4098
+ASSUME Len(Trace) = 4098 + 48
 
 VARIABLES l, bad
 
@@ -34,9 +34,18 @@ Ok(e, i) ==
           /\ e.acc_1006 = (Family(t) = "1006")
           /\ e.attempt = Family(t))
 
+\* Events 4099..4146: for every ordered pair (t, t2) of MSM types of DIFFERENT timed constellations, three messages
+\* t (late in the week), t2 (early in its week), t (one second after the first) through one handler: the time
+\* conversion must be dispatched on t's own constellation, so t2 cannot disturb it:
+\*   [t, t2, delta_ms, sow_same, err]
+OkDispatch(e) ==
+    /\ ConstellationOf(e.t) \in TimedConstellations /\ ConstellationOf(e.t2) \in TimedConstellations
+    /\ ConstellationOf(e.t) # ConstellationOf(e.t2)
+    /\ e.err = "" /\ e.delta_ms = 1000 /\ e.sow_same
+
 Init == l = 1 /\ bad = <<>>
 Next == /\ l <= Len(Trace)
         /\ l' = l + 1
-        /\ bad' = IF Ok(Trace[l], l) \/ Len(bad) >= MaxBad THEN bad ELSE Append(bad, l)
+        /\ bad' = IF (IF l <= 4098 THEN Ok(Trace[l], l) ELSE OkDispatch(Trace[l])) \/ Len(bad) >= MaxBad THEN bad ELSE Append(bad, l)
 Rec == Note(l, bad)
 =============================================================================
